@@ -31,6 +31,12 @@ def judge(ctx, obs, stats, prop="C08"):
     groups = {}
     for (ln, text, why) in res["rejections"]:
         d = json.loads(text)
+        if why.startswith("StuckSelected"):
+            # all answers right, State() still Selected after an accepted deselection: the outside view of known finding F1
+            sig = "%s:StuckSelectedAfterDeselect" % prop.lower()
+            g = groups.setdefault(sig, dict(n=0, first=d, why=why))
+            g["n"] += 1
+            continue
         bad = int(why[4:]) if why.startswith("Step") and why[4:].isdigit() and int(why[4:]) > 0 else 0
         syms = d["steps"][bad - 1]["syms"] if bad else []
         sig = "c08:%s:%s:%s:%s" % (d["role"], d["mode"], why if not bad else "step", "+".join(syms))
